@@ -7,13 +7,17 @@
    the bottom-up multiset.  The faithful model violates it in eleven syntactically
    delimited regions (Sparql/Findings.v, kf c <> 0).  Proved: the push-down theorem
    eval_td ctx P =perm= [mu + ctx | mu in eval_bu P, mu compatible with ctx]
-   for every context on the fragment {BGP, Join (lazy and hash), Union, Graph,
-   Values, Filter over error-free expressions whose variables its group binds}
-   under side conditions that are the negations of the trigger predicates of
-   findings 3 and 11 (C04_pushdown), and the tie theorem on that fragment
-   (C04_spec_ok_model_partial).  For LeftJoin / Minus / Extend / sub-SELECT the
-   agreement outside the trigger regions is supported by the correspondence
-   runs only. *)
+   for every context on the fragment {BGP, Join (lazy and hash), LeftJoin, Union,
+   Minus, Extend, Graph, Values, Filter} under syntactic side conditions that are
+   the negations of the trigger predicates of findings 1, 2, 3, 5, 6, 11 (and, for
+   expressions, a restriction to error-free filters whose variables their group
+   certainly binds, which implies the negations of 7-10) (C04_pushdown), and the
+   tie theorem on that fragment for SELECT / SELECT DISTINCT / ASK / CONSTRUCT
+   (C04_spec_ok_model_partial).  Not covered by a proof: sub-SELECT and DISTINCT
+   inside a pattern (the solutions of a projection forget the context, the
+   push-down invariant does not hold for them as stated), EXISTS, and filters
+   that can raise errors; there the agreement outside the trigger regions is
+   supported by the correspondence runs only. *)
 From RV Require Import Sparql.Tie.
 
 (* the top-down BGP evaluation under ANY context, for ANY order of the triple
@@ -78,13 +82,22 @@ Theorem C04_df_sound : forall ds p, shape p = true -> df p = true -> graphs_nodu
 Proof. exact df_sound. Qed.
 Print Assumptions C04_df_sound.
 
-(* C04_pushdown: on the fragment [frag] - BGP, Join (lazy; hash when [hash_ok],
-   the negation of the trigger of F-C04-3), Union, Values, Graph (when the name
-   is a graph of the dataset / the variable cannot be bound from outside, or the
-   pattern needs a triple: the negation of the trigger of F-C04-11), Filter over
-   error-free expressions whose variables the filter's own group certainly binds
-   and rdflib's _vars lists - for EVERY incoming context whose variables are among
-   [pushed]: top-down = bottom-up restricted to the context *)
+(* C04_pushdown: on the fragment [frag] -
+     BGP; Union; Values;
+     Join: lazy, or hash when [hash_ok] (= negation of the trigger of F-C04-3);
+     LeftJoin when [leftjoin_ok]: no filter or an error-free one over variables the
+       two sides certainly bind and the context cannot bind (neg. of F-C04-5), and
+       p1._vars covers what the left side may bind and names no context variable
+       the left side does not certainly bind (neg. of F-C04-6);
+     Minus when [minus_ok] (= negation of the trigger of F-C04-2);
+     Extend when [extend_ok]: the target is new (neg. of F-C04-1), the expression
+       an atom or error-free, over certainly bound variables listed in _vars;
+     Graph when the name is a graph of the dataset / the variable cannot be bound
+       from outside, or the pattern needs a triple (= neg. of F-C04-11);
+     Filter over error-free expressions whose variables the filter's own group
+       certainly binds and rdflib's _vars lists -
+   for EVERY incoming context whose variables are among [pushed]:
+   top-down = bottom-up restricted to the context *)
 Theorem C04_pushdown : forall ds, graphs_nodup ds ->
   forall p pushed, frag (map fst (ds_named ds)) pushed p = true ->
   forall g c, NoDup g -> sol_wf c = true -> dom_in c pushed ->
